@@ -12,7 +12,7 @@ from vf.zoo import vec
 
 ID = "C14"
 LEVEL = "exploration"
-BUDGET = {"quick": 320, "thorough": 4800}
+BUDGET = {"quick": 640, "thorough": 6400}
 MIN_NONTRIVIAL = {"quick": 20, "thorough": 300}
 RULE = (
     "Hypothesis draws a run configuration (as C13: 1-4 chains, multi-stage with adapters or not, five sampler "
